@@ -1,28 +1,242 @@
-"""Loop invariants for spydrnet/ir, keyed by (function qualified name, loop ordinal).
+"""Loop invariants for spydrnet/ir, keyed by (function qualified name, loop ordinal in source order).
 They mention only frame-entry values (lv.env), heaps (lv.hf frame entry, lv.hl loop entry, lv.h current),
-and the engine-bound symbols seen / it / i -- never local temporaries of the body."""
-from z3 import And, Or, Not, Implies, If, Const, ForAll, Exists, BoolVal
-from specs.ir import loop_spec, REL
+and the engine-bound symbols seen / it / i / D (iteration domain).  Where an invariant needs the value of a local
+(the `excluded_*` set of the bulk removals) it reads it by name; if the local no longer exists the function is
+DEGRADED (bounded tier only), never reported as a violation."""
+from z3 import And, Or, Not, Implies, If, Const, ForAll, Exists, BoolVal, K, Store
+from specs.ir import loop_spec, REL, Unsupported
 
 
-def same_except(lv, fields):
-    """every heap component not in `fields` is the term it was at loop entry"""
-    return [('C01', 'unchanged.' + f, lv.h[f] == lv.hl[f]) for f in lv.hl if f not in fields]
+def local(lv, name):
+    if name not in lv.cur:
+        raise Unsupported('invariant refers to local %r which no longer exists' % name)
+    return lv.cur[name]
 
 
-def removal_loop(qual, ordinal, shape, parent_field, attr, locals_=None, list_field=None):
-    """for x in <excluded>: self._remove_x(x)  -- parent pointer of every visited element cleared, announced as removed"""
-    mods = [parent_field, 't:' + attr, 'l:' + attr, 'ns']
-    @loop_spec(qual, ordinal, shape, mods, locals_)
+def base_of(lv):
+    """heap at entry of the outermost enclosing loop of the same frame"""
+    while lv.outer is not None:
+        lv = lv.outer
+    return lv.hl
+
+
+def emem_of(lv, v):
+    """==-membership predicate of a set / list value"""
+    se, st = lv.se, lv.st
+    if v[0] == 'set':
+        E = se.emem(st, v[1]); return lambda y: E[y]
+    if v[0] == 'list':
+        return lambda y: se.list_contains_eq(st, v[1], y)
+    raise Unsupported('membership in %s' % v[0])
+
+
+def ns_frame(lv, owner):
+    c = lv.ctx
+    return ('C14', 'ns-others', c.forall(['x'], lambda x: Implies(x != owner, lv.h['ns'][x] == lv.hl['ns'][x]), lambda x: lv.h['ns'][x]))
+
+
+# ------------------------------------------------------------------------------------------------ bulk removals
+def removal_set_loop(qual, ordinal, parent_field, attr, extra=None, extra_mods=()):
+    """for x in <excluded set>: self._remove_x(x)   (parent pointers of visited elements cleared and announced)"""
+    mods = [parent_field, 't:' + attr, 'l:' + attr, 'ns'] + list(extra_mods)
+    @loop_spec(qual, ordinal, 'set', mods)
     def inv(lv):
         c = lv.ctx; h = lv.h; hl = lv.hl; seen = lv.seen; self_ = lv.env['self'][1]
-        out = []
-        out.append(('C01', 'parent-cleared', c.forall(['x'], lambda x: h[parent_field][x] == If(seen[x], c.null, hl[parent_field][x]),
-                                                      lambda x: h[parent_field][x])))
-        out.append(('C19', 'touched', c.forall(['x'], lambda x: h['t:' + attr][x] == Or(seen[x], hl['t:' + attr][x]), lambda x: h['t:' + attr][x])))
-        out.append(('C19', 'last', c.forall(['x'], lambda x: h['l:' + attr][x] == If(seen[x], c.null, hl['l:' + attr][x]), lambda x: h['l:' + attr][x])))
+        out = [('C01', 'parent-cleared', c.forall(['x'], lambda x: h[parent_field][x] == If(seen[x], c.null, hl[parent_field][x]),
+                                                  lambda x: h[parent_field][x])),
+               ('C19', 'touched', c.forall(['x'], lambda x: h['t:' + attr][x] == Or(seen[x], hl['t:' + attr][x]), lambda x: h['t:' + attr][x])),
+               ('C19', 'last', c.forall(['x'], lambda x: h['l:' + attr][x] == If(seen[x], c.null, hl['l:' + attr][x]), lambda x: h['l:' + attr][x])),
+               ns_frame(lv, self_)]
+        if extra: out += extra(lv)
         return out
     return inv
 
 
-removal_loop('Cable.remove_wires_from', 0, 'set', '_cable', 'par:_wires')
+def removal_list_loop(qual, ordinal, list_field, parent_field, attr, included, excluded):
+    """included = []; for x in self._L: (included.append(x) if x not in excluded else self._remove_x(x))"""
+    mods = [parent_field, 't:' + attr, 'l:' + attr, 'ns']
+    @loop_spec(qual, ordinal, 'list', mods, {included: 'list'})
+    def inv(lv):
+        c = lv.ctx; h = lv.h; hl = lv.hl; seen = lv.seen; self_ = lv.env['self'][1]
+        ex = emem_of(lv, local(lv, excluded))
+        inc = local(lv, included)[1]
+        gone = lambda x: And(seen[x], ex(x))
+        return [('C01', 'included', c.forall(['x'], lambda x: c.cnt(inc, x) == If(And(seen[x], Not(ex(x))), 1, 0), lambda x: c.cnt(inc, x))),
+                ('C01', 'parent-cleared', c.forall(['x'], lambda x: h[parent_field][x] == If(gone(x), c.null, hl[parent_field][x]),
+                                                   lambda x: h[parent_field][x])),
+                ('C19', 'touched', c.forall(['x'], lambda x: h['t:' + attr][x] == Or(gone(x), hl['t:' + attr][x]), lambda x: h['t:' + attr][x])),
+                ('C19', 'last', c.forall(['x'], lambda x: h['l:' + attr][x] == If(gone(x), c.null, hl['l:' + attr][x]), lambda x: h['l:' + attr][x])),
+                ns_frame(lv, self_)]
+    return inv
+
+
+removal_set_loop('Cable.remove_wires_from', 0, '_cable', 'par:_wires')
+removal_list_loop('Definition.remove_cables_from', 0, '_cables', '_definition', 'par:_cables', 'included_cables', 'excluded_cables')
+removal_list_loop('Definition.remove_children_from', 0, '_children', '_parent', 'par:_children', 'included_children', 'excluded_children')
+removal_list_loop('Library.remove_definitions_from', 0, '_definitions', '_library', 'par:_definitions', 'included_definitions', 'excluded_definitions')
+removal_list_loop('Netlist.remove_libraries_from', 0, '_libraries', '_netlist', 'par:_libraries', 'included_libraries', 'excluded_libraries')
+
+
+# ------------------------------------------------------------------------------------------------ outer-pin creation
+OPIN_CREATE_MODS = ['okeys', 'ovals', 'alloc', '_instance', '_inner_pin', '_wire']
+
+
+def opins_created(lv, created, base):
+    """outer pins created for exactly the (instance, inner pin) pairs `created`; nothing else of the heap moves"""
+    c = lv.ctx; h = lv.h; A = h['alloc']; A0 = base['alloc']
+    isOP = lambda x: c.cls(x) == c.C['OuterPin']
+    o = lambda i, q: h['ovals'][i][q]
+    return [
+        ('C02', 'keys', c.forall(['i', 'q'], lambda i, q: h['okeys'][i][q] == Or(base['okeys'][i][q], created(i, q)), lambda i, q: h['okeys'][i][q])),
+        ('C02', 'old-values', c.forall(['i', 'q'], lambda i, q: Implies(base['okeys'][i][q], o(i, q) == base['ovals'][i][q]), lambda i, q: o(i, q))),
+        ('C02', 'new-values', c.forall(['i', 'q'], lambda i, q: Implies(created(i, q),
+            And(Not(A0[o(i, q)]), A[o(i, q)], isOP(o(i, q)), h['_instance'][o(i, q)] == i, h['_inner_pin'][o(i, q)] == q,
+                h['_wire'][o(i, q)] == c.null)), lambda i, q: o(i, q))),
+        ('C02', 'fresh-are-created', c.forall(['x'], lambda x: Implies(And(A[x], Not(A0[x])),
+            And(isOP(x), created(h['_instance'][x], h['_inner_pin'][x]), o(h['_instance'][x], h['_inner_pin'][x]) == x)), lambda x: A[x])),
+        ('C14', 'old-objects', c.forall(['x'], lambda x: Implies(Not(And(A[x], Not(A0[x]))), And(h['_instance'][x] == base['_instance'][x],
+            h['_inner_pin'][x] == base['_inner_pin'][x], h['_wire'][x] == base['_wire'][x])), lambda x: [A[x], A0[x]])),
+        ('C14', 'alloc-grows', c.forall(['x'], lambda x: Implies(A0[x], A[x]), lambda x: [A0[x]])),
+    ]
+
+
+@loop_spec('Port.add_pin', 0, 'set', OPIN_CREATE_MODS)
+def _inv_add_pin(lv):
+    pin = lv.env['pin'][1]
+    return opins_created(lv, lambda i, q: And(lv.seen[i], q == pin), lv.hl)
+
+
+@loop_spec('Definition.add_port', 0, 'set', OPIN_CREATE_MODS)
+def _inv_add_port_outer(lv):
+    c = lv.ctx; port = lv.env['port'][1]
+    pins = lv.hl['_pins'][port]
+    return opins_created(lv, lambda i, q: And(lv.seen[i], c.cnt(pins, q) > 0), lv.hl)
+
+
+@loop_spec('Definition.add_port', 1, 'list', OPIN_CREATE_MODS)
+def _inv_add_port_inner(lv):
+    c = lv.ctx; port = lv.env['port'][1]; o = lv.outer; base = o.hl
+    pins = base['_pins'][port]
+    return opins_created(lv, lambda i, q: Or(And(o.seen[i], c.cnt(pins, q) > 0), And(i == o.it, lv.seen[q])), base)
+
+
+# ------------------------------------------------------------------------------------------------ create_wires / create_pins
+@loop_spec('Cable.create_wires', 0, 'range', ['_wires', '_cable', '_pins', 'alloc', 't:par:_wires', 'l:par:_wires'])
+def _inv_create_wires(lv):
+    c = lv.ctx; h = lv.h; hl = lv.hl; self_ = lv.env['self'][1]; A = h['alloc']; A0 = hl['alloc']
+    new = lambda x: And(A[x], Not(A0[x]))
+    return [
+        ('C01', 'new-wires', c.forall(['x'], lambda x: Implies(new(x), And(c.cls(x) == c.C['Wire'], h['_cable'][x] == self_,
+            c.cnt(h['_wires'][self_], x) == 1, h['t:par:_wires'][x], h['l:par:_wires'][x] == self_)),
+            lambda x: [A[x], h['t:par:_wires'][x], h['_cable'][x]])),
+        ('C01', 'new-wires-unconnected', c.forall(['x', 'y'], lambda x, y: Implies(new(x), c.cnt(h['_pins'][x], y) == 0), lambda x, y: c.cnt(h['_pins'][x], y))),
+        ('C01', 'old-members', c.forall(['y'], lambda y: Implies(Not(new(y)), c.cnt(h['_wires'][self_], y) == c.cnt(hl['_wires'][self_], y)),
+                                        lambda y: c.cnt(h['_wires'][self_], y))),
+        ('C14', 'old-objects', c.forall(['x'], lambda x: Implies(Not(new(x)), And(h['_cable'][x] == hl['_cable'][x], h['_pins'][x] == hl['_pins'][x],
+            h['t:par:_wires'][x] == hl['t:par:_wires'][x], h['l:par:_wires'][x] == hl['l:par:_wires'][x],
+            Implies(x != self_, h['_wires'][x] == hl['_wires'][x]))), lambda x: [A[x], h['t:par:_wires'][x], h['_cable'][x]])),
+    ]
+
+
+CREATE_PINS_MODS = ['_pins', '_port', 'alloc', 't:par:_pins', 'l:par:_pins'] + [m for m in OPIN_CREATE_MODS if m != 'alloc']
+
+
+@loop_spec('Port.create_pins', 0, 'range', CREATE_PINS_MODS)
+def _inv_create_pins(lv):
+    c = lv.ctx; h = lv.h; hl = lv.hl; self_ = lv.env['self'][1]; A = h['alloc']; A0 = hl['alloc']
+    isIP = lambda x: c.cls(x) == c.C['InnerPin']; isOP = lambda x: c.cls(x) == c.C['OuterPin']
+    newpin = lambda q: And(A[q], Not(A0[q]), isIP(q))
+    d = hl['_definition'][self_]
+    refs = lambda i: And(d != c.null, hl['_references'][d][i])
+    created = lambda i, q: And(refs(i), newpin(q))
+    o = lambda i, q: h['ovals'][i][q]
+    return [
+        ('C01', 'new-pins', c.forall(['q'], lambda q: Implies(newpin(q), And(h['_port'][q] == self_, c.cnt(h['_pins'][self_], q) == 1,
+            h['_wire'][q] == c.null, h['t:par:_pins'][q], h['l:par:_pins'][q] == self_)),
+            lambda q: [A[q], h['t:par:_pins'][q], h['_port'][q]])),
+        ('C01', 'old-members', c.forall(['y'], lambda y: Implies(Not(newpin(y)), c.cnt(h['_pins'][self_], y) == c.cnt(hl['_pins'][self_], y)),
+                                        lambda y: c.cnt(h['_pins'][self_], y))),
+        ('C14', 'old-objects', c.forall(['x'], lambda x: Implies(Not(And(A[x], Not(A0[x]))), And(h['_port'][x] == hl['_port'][x], h['_instance'][x] == hl['_instance'][x],
+            h['_inner_pin'][x] == hl['_inner_pin'][x], h['_wire'][x] == hl['_wire'][x], h['t:par:_pins'][x] == hl['t:par:_pins'][x],
+            h['l:par:_pins'][x] == hl['l:par:_pins'][x], Implies(x != self_, h['_pins'][x] == hl['_pins'][x]))),
+            lambda x: [A[x], h['t:par:_pins'][x], h['_port'][x]])),
+        ('C02', 'keys', c.forall(['i', 'q'], lambda i, q: h['okeys'][i][q] == Or(hl['okeys'][i][q], created(i, q)), lambda i, q: h['okeys'][i][q])),
+        ('C02', 'old-values', c.forall(['i', 'q'], lambda i, q: Implies(hl['okeys'][i][q], o(i, q) == hl['ovals'][i][q]), lambda i, q: o(i, q))),
+        ('C02', 'new-values', c.forall(['i', 'q'], lambda i, q: Implies(created(i, q), And(Not(A0[o(i, q)]), A[o(i, q)], isOP(o(i, q)),
+            h['_instance'][o(i, q)] == i, h['_inner_pin'][o(i, q)] == q, h['_wire'][o(i, q)] == c.null)), lambda i, q: o(i, q))),
+        ('C02', 'fresh-are-created', c.forall(['x'], lambda x: Implies(And(A[x], Not(A0[x])), Or(isIP(x),
+            And(isOP(x), created(h['_instance'][x], h['_inner_pin'][x]), o(h['_instance'][x], h['_inner_pin'][x]) == x))), lambda x: A[x])),
+    ]
+
+
+# ------------------------------------------------------------------------------------------------ outer-pin deletion
+OPIN_DELETE_MODS = ['okeys', '_instance', '_inner_pin', '_wire', '_pins', 't:wire', 'l:wire']
+
+
+def stored_in(lv, hp, o):
+    c = lv.ctx
+    i = hp['_instance'][o]; q = hp['_inner_pin'][o]
+    return And(hp['alloc'][o], c.cls(o) == c.C['OuterPin'], hp['alloc'][i], c.cls(i) == c.C['Instance'], hp['okeys'][i][q], hp['ovals'][i][q] == o)
+
+
+def opins_deleted(lv, deleted, base, keys_deleted=True):
+    """the outer pins stored under the (instance, inner pin) pairs `deleted` were taken off their wire (announced) and detached"""
+    c = lv.ctx; h = lv.h
+    done = lambda o: And(stored_in(lv, base, o), deleted(base['_instance'][o], base['_inner_pin'][o]))
+    wired = lambda o: And(done(o), base['_wire'][o] != c.null)
+    isW = lambda w: And(base['alloc'][w], c.cls(w) == c.C['Wire'])
+    out = []
+    if keys_deleted:
+        out.append(('C02', 'keys', c.forall(['i', 'q'], lambda i, q: h['okeys'][i][q] == And(base['okeys'][i][q], Not(deleted(i, q))),
+                                            lambda i, q: [h['okeys'][i][q], base['okeys'][i][q]])))
+    else:
+        out.append(('C02', 'keys', h['okeys'] == base['okeys']))
+    out += [
+        ('C02', 'detached', c.forall(['o'], lambda o: Implies(done(o), And(h['_instance'][o] == c.null, h['_inner_pin'][o] == c.null,
+                 h['_wire'][o] == c.null)), lambda o: [h['_instance'][o], h['_inner_pin'][o], h['_wire'][o], base['_instance'][o]])),
+        ('C14', 'others', c.forall(['o'], lambda o: Implies(Not(done(o)), And(h['_instance'][o] == base['_instance'][o],
+                 h['_inner_pin'][o] == base['_inner_pin'][o], h['_wire'][o] == base['_wire'][o])),
+                 lambda o: [h['_instance'][o], h['_inner_pin'][o], h['_wire'][o], base['_instance'][o]])),
+        ('C01', 'wire-lists', c.forall(['w', 'p'], lambda w, p: Implies(isW(w), c.cnt(h['_pins'][w], p) == If(done(p), 0, c.cnt(base['_pins'][w], p))),
+                 lambda w, p: [c.cnt(h['_pins'][w], p), c.cnt(base['_pins'][w], p)])),
+        ('C01', 'other-lists', c.forall(['w'], lambda w: Implies(Not(isW(w)), h['_pins'][w] == base['_pins'][w]), lambda w: [h['_pins'][w]])),
+        ('C19', 'touched', c.forall(['o'], lambda o: h['t:wire'][o] == Or(base['t:wire'][o], wired(o)), lambda o: [h['t:wire'][o], base['t:wire'][o]])),
+        ('C19', 'last', c.forall(['o'], lambda o: h['l:wire'][o] == If(wired(o), c.null, base['l:wire'][o]), lambda o: [h['l:wire'][o], base['l:wire'][o]])),
+    ]
+    return out
+
+
+@loop_spec('Port._remove_pin', 0, 'set', OPIN_DELETE_MODS)
+def _inv_remove_pin(lv):
+    pin = lv.env['pin'][1]
+    return opins_deleted(lv, lambda i, q: And(lv.seen[i], q == pin), lv.hl)
+
+
+def _extra_remove_pins_from(lv):
+    c = lv.ctx; self_ = lv.env['self'][1]; hl = lv.hl
+    d = hl['_definition'][self_]
+    return opins_deleted(lv, lambda i, q: And(d != c.null, hl['_references'][d][i], lv.seen[q]), hl)
+
+
+removal_set_loop('Port.remove_pins_from', 0, '_port', 'par:_pins', extra=_extra_remove_pins_from, extra_mods=OPIN_DELETE_MODS)
+
+
+@loop_spec('Definition._remove_port', 0, 'set', OPIN_DELETE_MODS)
+def _inv_remove_port_outer(lv):
+    c = lv.ctx; port = lv.env['port'][1]; pins = lv.hl['_pins'][port]
+    return opins_deleted(lv, lambda i, q: And(lv.seen[i], c.cnt(pins, q) > 0), lv.hl)
+
+
+@loop_spec('Definition._remove_port', 1, 'list', OPIN_DELETE_MODS)
+def _inv_remove_port_inner(lv):
+    c = lv.ctx; port = lv.env['port'][1]; o = lv.outer; base = o.hl; pins = base['_pins'][port]
+    return opins_deleted(lv, lambda i, q: Or(And(o.seen[i], c.cnt(pins, q) > 0), And(i == o.it, lv.seen[q])), base)
+
+
+def _extra_remove_ports_from(lv):
+    c = lv.ctx; self_ = lv.env['self'][1]; hl = lv.hl
+    return opins_deleted(lv, lambda i, q: And(hl['_references'][self_][i], hl['alloc'][q], c.cls(q) == c.C['InnerPin'],
+                                              hl['_port'][q] != c.null, lv.seen[hl['_port'][q]]), hl)
+
+
+removal_set_loop('Definition.remove_ports_from', 0, '_definition', 'par:_ports', extra=_extra_remove_ports_from, extra_mods=OPIN_DELETE_MODS)
